@@ -4,7 +4,8 @@ from __future__ import annotations
 import ast
 
 from ..cfg import CFG
-from ..core import (AnalysisError, DefRef, NotConst, Ref, call_name, calls_in, dotted, enclosing_conditions, func_params, get_kw, norm,
+from .. import logic
+from ..core import (expand_aliases, single_assign_aliases, AnalysisError, DefRef, NotConst, Ref, call_name, calls_in, dotted, enclosing_conditions, func_params, get_kw, norm,
                     qualname_of, walk_no_nested)
 
 PROPERTY = "C20"
@@ -49,7 +50,7 @@ def run(ctx):
             if isinstance(c.func, ast.Attribute) and c.func.attr == "encode":
                 recv = c.func.value
                 # constant / pure-literal f-strings (e.g. the record counter line) cannot hold surrogates
-                derived = _record_derived(recv, fn)
+                derived = _record_derived(recv, fn, prog, m)
                 if not derived:
                     continue
                 n_sinks += 1
@@ -148,21 +149,86 @@ def run(ctx):
     if len(rdict_def) != 1:
         raise AnalysisError("R20.3: rdict = rec._asdict(...) not found")
     rdict = norm(rdict_def[0].targets[0])
-    fmt_defs = [st for st in walk_no_nested(lw) if isinstance(st, ast.Assign) and norm(st.targets[0]) == "fmt"]
-    loop = next((n for n in walk_no_nested(lw) if isinstance(n, ast.For) and norm(n.iter) == f"{rdict}.items()"), None)
+    lal = {k: v for k, v in single_assign_aliases(lw).items() if k != rdict}
+
+    def one_to_one(name) -> bool:
+        """Is the local list `name` built with exactly one element per key of the dict, in order, on every definition?"""
+        defs = [st.value for st in walk_no_nested(lw) if isinstance(st, ast.Assign) and len(st.targets) == 1 and norm(st.targets[0]) == name]
+        if not defs:
+            return False
+        for d in defs:
+            if isinstance(d, ast.Call) and call_name(d) in ("list", "tuple") and len(d.args) == 1 and norm(d.args[0]) in (rdict, f"{rdict}.keys()"):
+                continue
+            if isinstance(d, (ast.ListComp,)) and len(d.generators) == 1 and not d.generators[0].ifs and norm(d.generators[0].iter) in (rdict, f"{rdict}.keys()"):
+                continue
+            return False
+        return True
+
+    loops = []
+    for n in walk_no_nested(lw):
+        if not isinstance(n, ast.For):
+            continue
+        it = n.iter
+        if norm(expand_aliases(it, lal)) == f"{rdict}.items()" and isinstance(n.target, ast.Tuple) and len(n.target.elts) == 2:
+            loops.append(n)
+        elif isinstance(it, ast.Call) and call_name(it) == "zip" and len(it.args) == 2 and isinstance(n.target, ast.Tuple) and len(n.target.elts) == 2:
+            a0, a1 = it.args
+            if norm(a1) == f"{rdict}.values()" and isinstance(a0, ast.Name) and one_to_one(a0.id):
+                loops.append(n)
+    writes_all = [c for c in calls_in(lw) if isinstance(c.func, ast.Attribute) and c.func.attr == "write"]
+    loop = next((lp for lp in loops if any(c in list(ast.walk(lp)) for c in writes_all)), None)
     ctx.check(loop is not None, "R20.3", "LineWriter.write:item-loop", f"no loop over {rdict}.items(): fields are dropped", lw, f"for key, value in {rdict}.items()", key="R20.3:LineWriter:no-item-loop")
-    if loop is not None and fmt_defs:
-        # fmt is defined under `if rdict:`; the loop body only runs when rdict is non-empty -> same condition
-        conds = enclosing_conditions(fmt_defs[0], lw)
-        ok = conds in ([(rdict, True)], []) and not [n for n in ast.walk(loop) if isinstance(n, (ast.Break, ast.Continue, ast.Return))]
-        ctx.check(ok, "R20.3", "LineWriter.write:fmt-defined", f"`fmt` is defined only under {conds}, which does not cover every execution of the item loop", fmt_defs[0],
-                  f"defined whenever {rdict} is non-empty, i.e. whenever the loop body runs", key="R20.3:LineWriter:fmt-possibly-undefined")
+    if loop is not None:
+        kvar, vvar = [norm(x) for x in loop.target.elts]
         writes = [c for c in ast.walk(loop) if isinstance(c, ast.Call) and isinstance(c.func, ast.Attribute) and c.func.attr == "write"]
-        ok = len(writes) == 1 and "fmt.format(key, value)" in norm(writes[0]) and enclosing_conditions(writes[0], loop) == []
+        ok = len(writes) == 1 and enclosing_conditions(writes[0], loop) == [] and not [n for n in ast.walk(loop) if isinstance(n, (ast.Break, ast.Continue, ast.Return))]
+        if ok:
+            used = {n.id for n in ast.walk(writes[0]) if isinstance(n, ast.Name)}
+            # the key may be re-labelled inside the loop (key = f"{key} (type)")
+            ok = vvar in used and kvar in used
         ctx.check(ok, "R20.3", "LineWriter.write:one-line-per-item", "not exactly one unconditional `name = value` line per field", loop, "one write per item")
-    hdr = [c for c in calls_in(lw) if isinstance(c.func, ast.Attribute) and c.func.attr == "write" and "RECORD" in norm(c)]
+        # every local the line is built from is defined whenever the loop body runs (the body runs only for a non-empty dict)
+        if writes:
+            wnode = lcfg.node_of(writes[0]).id
+            params = set(func_params(lw))
+            local_names = {n.id for n in ast.walk(writes[0]) if isinstance(n, ast.Name) and isinstance(n.ctx, ast.Load)} - params - {kvar, vvar}
+            stored_any = {t.id for st in ast.walk(lw) if isinstance(st, (ast.Assign, ast.AugAssign, ast.For)) for t in ast.walk(st.targets[0] if isinstance(st, ast.Assign) else st.target)
+                          if isinstance(t, ast.Name)}
+            from ..cfg import stored_paths
+
+            for nm in sorted(local_names & stored_any):
+                def blocked(u, v, cond, nm=nm):
+                    nd = lcfg.nodes[u]
+                    if nd.ast is not None and nm in stored_paths(nd):
+                        return True
+                    if cond is not None:
+                        f = logic.formula(cond[0])
+                        val = logic.evaluate3(f, {rdict: True, f"len({rdict})": True})
+                        if val is not None and val != cond[1]:
+                            return True
+                    return False
+
+                undefined_reach = wnode in lcfg.reachable_avoiding_edges(lcfg.entry, blocked)
+                ctx.check(not undefined_reach, "R20.3", f"LineWriter.write:{nm}-defined", f"`{nm}` may be undefined when the item loop runs (it is not assigned on every path on which {rdict} is non-empty)",
+                          writes[0], f"defined whenever {rdict} is non-empty, i.e. whenever the loop body runs", key="R20.3:LineWriter:fmt-possibly-undefined")
+    # an empty selection is a valid input (fields=/exclude= can leave nothing): aggregates that raise on an empty iterable need a default or a non-emptiness guard
+    for c in calls_in(lw):
+        if call_name(c) in ("max", "min") and len(c.args) == 1 and get_kw(c, "default") is None and rdict in {n.id for n in ast.walk(c.args[0]) if isinstance(n, ast.Name)}:
+            nd = lcfg.header_node_for_expr(c) or lcfg.node_of(c)
+            guarded = logic.implies(logic.facts_as_premises(lcfg.facts_at(nd.id)), logic.parse(rdict)) or logic.implies(logic.facts_as_premises(lcfg.facts_at(nd.id)), logic.parse(f"len({rdict}) > 0"))
+            ctx.check(guarded, "R20.3", f"LineWriter.write:{call_name(c)}-of-selection", f"`{norm(c)[:60]}` raises ValueError when the field selection leaves nothing to print and is not guarded by `if {rdict}:`",
+                      c, f"evaluated only when {rdict} is non-empty", key=f"R20.3:LineWriter:{call_name(c)}-on-empty-selection")
+
+    def _mentions_count(c):
+        a = c.args[0] if c.args else None
+        while isinstance(a, ast.Call) and isinstance(a.func, ast.Attribute) and a.func.attr == "encode":
+            a = a.func.value
+        return a is not None and any(isinstance(n, ast.Attribute) and norm(n) == "self.count" for n in ast.walk(a))
+
+    hdr = [c for c in calls_in(lw) if isinstance(c.func, ast.Attribute) and c.func.attr == "write" and _mentions_count(c)]
     inc = [st for st in walk_no_nested(lw) if isinstance(st, ast.AugAssign) and norm(st.target) == "self.count"]
-    ctx.check(len(hdr) == 1 and len(inc) == 1 and inc[0].lineno < hdr[0].lineno and enclosing_conditions(hdr[0], lw) == [], "R20.3", "LineWriter.write:block-header",
+    ctx.check(len(hdr) == 1 and len(inc) == 1 and lcfg.dominates(lcfg.node_of(inc[0]).id, lcfg.node_of(hdr[0]).id) and lcfg.dominates(lcfg.node_of(hdr[0]).id, lcfg.exit)
+              and enclosing_conditions(hdr[0], lw) == [], "R20.3", "LineWriter.write:block-header",
               "no numbered block header per record", lw, "--[ RECORD n ]-- per record")
     ctx.check(norm(get_kw(rdict_def[0].value, "fields") or ast.Constant(None)) == "self.fields" and norm(get_kw(rdict_def[0].value, "exclude") or ast.Constant(None)) == "self.exclude", "R20.3",
               "LineWriter.write:selection", "fields/exclude options are not applied through _asdict", lw, "_asdict(fields=self.fields, exclude=self.exclude)")
@@ -181,20 +247,43 @@ def run(ctx):
                   "all fields supplied, missing keys tolerated", key="R20.4:TextWriter:template-mapping-restricted")
     dm = ctx.anchor_func("flow.record.adapter.text.DefaultMissing.__missing__")
     ctx.check(not [n for n in ast.walk(dm) if isinstance(n, ast.Raise)], "R20.4", "DefaultMissing.__missing__", "a missing key raises", dm, "returns the placeholder")
-    other = [st for st in walk_no_nested(tw) if isinstance(st, ast.Assign) and isinstance(st.value, ast.Call) and call_name(st.value) == "repr" and norm(st.value.args[0]) == rec]
+    other = [c for c in calls_in(tw) if call_name(c) == "repr" and len(c.args) == 1 and norm(c.args[0]) == rec]
     ctx.check(bool(other), "R20.4", "TextWriter.write:repr", "without a template the record's repr is not used", tw, "buf = repr(rec)")
     wcalls = [c for c in calls_in(tw) if isinstance(c.func, ast.Attribute) and c.func.attr == "write"]
-    ctx.check(len(wcalls) == 1 and norm(wcalls[0].args[0]).endswith("+ b'\\n'") and enclosing_conditions(wcalls[0], tw) == [], "R20.4", "TextWriter.write:newline",
+    tal = single_assign_aliases(tw)
+    warg = expand_aliases(wcalls[0].args[0], tal) if len(wcalls) == 1 and wcalls[0].args else None
+    nl_ok = isinstance(warg, ast.BinOp) and isinstance(warg.op, ast.Add) and isinstance(warg.right, ast.Constant) and warg.right.value == b"\n" \
+        and not (isinstance(warg.left, ast.BinOp) and isinstance(warg.left.right, ast.Constant))
+    ctx.check(len(wcalls) == 1 and nl_ok and enclosing_conditions(wcalls[0], tw) == [], "R20.4", "TextWriter.write:newline",
               "the rendering is not written once followed by one newline", tw, "buf + b'\\n'")
     rr = ctx.anchor_func("flow.record.base.Record.__repr__")
     ctx.check("self._desc.fields" in norm(rr) and "getattr(self, k)" in norm(rr), "R20.4", "Record.__repr__", "repr does not list every declared field", rr, "k=v for k in self._desc.fields")
 
 
-def _record_derived(recv, fn) -> bool:
-    """Could the text being encoded contain record values?  Literal-only f-strings over the writer's own counters cannot."""
-    if isinstance(recv, ast.Constant):
+def _record_derived(recv, fn, prog=None, module=None) -> bool:
+    """Could the text being encoded contain record values?  Text composed only of literals and the writer's own attributes
+    (e.g. the record counter line) cannot."""
+    from ..core import copy_ast
+    from ..strsym import text_structure
+
+    e = copy_ast(recv)
+    if prog is not None:
+        # module-level template constants: RECORD_HEADER.format(...) -> "<text>".format(...)
+        for n in ast.walk(e):
+            if isinstance(n, ast.Call) and isinstance(n.func, ast.Attribute) and n.func.attr == "format" and isinstance(n.func.value, ast.Name):
+                try:
+                    v = prog.fold(module, n.func.value)
+                    if isinstance(v, str):
+                        n.func.value = ast.Constant(value=v)
+                except NotConst:
+                    pass
+
+    def derived(parts):
+        for p in parts:
+            if p[0] == "var" and not (p[1].startswith("self.") and "(" not in p[1]):
+                return True
+            if p[0] == "repeat":
+                return True
         return False
-    if isinstance(recv, ast.JoinedStr):
-        names = [n for n in ast.walk(recv) if isinstance(n, (ast.Name, ast.Attribute))]
-        return any(not (dotted(n) or "").startswith("self.") for n in names if isinstance(n, ast.Name) and n.id != "self")
-    return True
+
+    return derived(text_structure(fn, e))
